@@ -406,3 +406,10 @@ patch("s-c19k-timespec-int64", "seeded/C19-K/patch.diff", "C19.R9")
 patch("s-c20k-packed-stride", "seeded/C20-K/patch.diff", "C20.R11")
 patch("s-c14l-stale-pool-push", "seeded/C14-L/patch.diff", "C14.R11")
 patch("s-c04k-futex-sample-after-release", "seeded/C04-K/patch.diff", "C04.X3")
+
+# round-7 seeds (ids -M) that every check missed on first contact
+patch("s-c01m-sched-total-size", "seeded/C01-M/patch.diff", "C01.R22")
+patch("s-c07m-pool-size-counts-blocked", "seeded/C07-M/patch.diff", "C07.R10")
+patch("s-c14m-direct-pool-store", "seeded/C14-M/patch.diff", "C14.R12")
+patch("s-c16m-ktable-nonnull-only", "seeded/C16-M/patch.diff", "C16.R10")
+patch("s-c13m-attr-init-drops-callback", "seeded/C13-M/patch.diff", "C13.R13")
